@@ -115,6 +115,8 @@ void HttpServer::serve(Socket client)
 						response.setHeader("Content-Range", "+");
 						response.putFile(file.path(), begin, end);
 					}
+					else // a range form that is not served (other unit, several ranges): the whole file
+						response.putFile(file.path());
 				}
 				else
 					response.putFile(file.path());
